@@ -19,7 +19,7 @@ class C06(Prop):
     level_text = ('Theorem C06_translation: for every legend-free input with a non-empty cell map, every settings value and every offset (k,n), the document of the moved text is the original with the canvas enlarged by (k,n) cells and exactly the drawing nodes of the original translated by (k*scale, 2*n*scale): same elements, same order, same classes, same text. '
                   'Proved through every stage for all inputs: lines/rows/escape_line under indentation, the three merge loops (M4 equivariance), fragment buffer (sorted map, per-cell sort), contacts, rect/rounded-rect endorsement, circle/arc matching on localised spans, the enclosure pass (under the table invariant that polygons are non-empty, re-proved on regenerated tables), node emission in exact rationals.')
     level_note = 'the float code can depend on position only through rounding (parry epsilons); exactness below 512 cells is an assumption that the correspondence samples at offsets up to 399 x 199; hypothesis: no legend header before or after the move; the empty drawing is the stated exception'
-    rule = 'each item renders a legend-free input at the origin and shifted by (k spaces, n line feeds), offsets from {0,1,2,7,50,399} x {0,1,3,20,199} (thorough: random up to 400 x 200), scales {8, 2.5, 1.5, 0.5}; non-trivial when the drawing has at least one cell'
+    rule = 'each item renders a legend-free input at the origin and shifted by (k spaces, n line feeds), offsets from {0,1,2,7,50,399} x {0,1,3,20,199} (thorough: random up to 400 x 200), scales {8, 2.5, 1.5, 0.5}; a far stream of small arc-heavy drawings always moved by 260-399 columns and/or 130-199 rows; non-trivial when the drawing has at least one cell'
     def make(self, gen, text, k, n, sc='8'):
         spec = '' if sc == '8' else 'scale=%s' % sc
         return Item(gen, {'base': Run(text, spec, 'settings'), 'moved': Run(shift(text, k, n), spec, 'settings')}, {'text': text, 'offset': [k, n], 'scale': sc},
@@ -37,6 +37,17 @@ class C06(Prop):
                     src.append(('junction-sweep', '\n' + '\n'.join(rows)))
         for g, t in gens.g_shape(rng, 150 if tier == 'quick' else 3000):
             if g == 'shape:arc': src.append((g, t))
+        # far from the origin: small arc-heavy drawings (round corners, parentheses next to walls: end points a quarter cell apart)
+        # always moved by hundreds of cells, where a comparison with a relative tolerance starts to confuse neighbouring grid points
+        far = []
+        for _ in range(150 if tier == 'quick' else 3000):
+            w = rng.randint(2, 6); h = rng.randint(1, 3)
+            inner = [''.join(rng.choice("  ()-'.,`|") for _ in range(w)) for _ in range(h)]
+            c = rng.choice(["..''", ",.`'", "++++"])
+            rows = [c[0] + '-' * w + c[1]] + ['|' + r + '|' for r in inner] + [c[2] + '-' * w + c[3]]
+            far.append(('far-arcs', '\n'.join(rows)))
+        for _ in range(100 if tier == 'quick' else 2000):
+            far.append(('far-grid', '\n'.join(''.join(rng.choice("  ()-'.,`|/\\_~+*ov^<>") for _ in range(rng.randint(2, 6))) for _ in range(rng.randint(2, 5)))))
         for g, t in src:
             if '# Legend:' in t or '\r' in t: continue
             if tier == 'quick' or rng.random() < 0.5: k = rng.choice([0, 1, 2, 7, 50, 399]); n = rng.choice([0, 1, 3, 20, 199])
@@ -44,6 +55,9 @@ class C06(Prop):
             if g.startswith('junction'): k = rng.choice([2, 5]); n = rng.choice([0, 1, 2])
             if k == 0 and n == 0: k = 1
             out.append(self.make(g, t, k, n, rng.choice(['8', '8', '8', '8', '5/2', '3/2', '1/2'])))      # the canvas and the elements move by whole cells at any scale
+        for g, t in far:
+            k, n = rng.choice([(399, 199), (260, 130), (300, 0), (0, 199), (399, 0)])
+            out.append(self.make(g, t, k, n))
         return out
     def item_from_json(self, j): return item_from_json(None, j)
     def oracle(self, it):
